@@ -44,6 +44,8 @@ def run(e: Engine, rep: Report):
              'active_ids.discard before _add_queued')
     rep.rule('Q5', 'entries dropped from the timetable are exactly those a '
              '_dequeue was spawned for')
+    rep.rule('Q7', 'the scan over the shared timetable contains no call '
+             'that can switch greenlets')
     rep.rule('Q6', 'dispatch only under now >= timestamp, scan stops at the '
              'first entry not due, bounded sleep until the first due time')
     rep.not_decided += ['real clock behaviour', 'fairness of gevent',
@@ -310,79 +312,169 @@ def _spawns_dequeue(e: Engine, n: Node) -> bool:
         and any(ast.unparse(a).endswith('._dequeue') for a in n.ast.args)
 
 
+YIELD_FREE = {'insort', 'insort_left', 'insort_right', 'add', 'discard',
+              'set', 'len', 'enumerate', 'isinstance', 'append', 'time',
+              'clear', 'range', 'sorted', 'list', 'tuple'}
+
+
+def _snapshot_vars(g, whole_only=False):
+    """locals assigned from self.queued (whole list) or a prefix slice of
+    it: {var path: slice upper text or None}"""
+    out = {}
+    for n in g.of_kind('stmt'):
+        if not isinstance(n.ast, ast.Assign):
+            continue
+        v = n.ast.value
+        tg = n.ast.targets[0]
+        if isinstance(tg, (ast.Tuple, ast.List)) and \
+                isinstance(v, ast.Tuple) and len(tg.elts) == len(v.elts):
+            pairs = list(zip(tg.elts, v.elts))
+        else:
+            pairs = [(tg, v)]
+        for t, val in pairs:
+            p = path_of(t, n.frame)
+            if p is None or p.startswith('self.'):
+                continue
+            if path_of(val, n.frame) == 'self.queued':
+                out[p] = (None, n)
+            elif isinstance(val, ast.Subscript) and \
+                    path_of(val.value, n.frame) == 'self.queued' and \
+                    isinstance(val.slice, ast.Slice) and \
+                    val.slice.lower is None and val.slice.upper is not None \
+                    and not whole_only:
+                out[p] = (ast.unparse(val.slice.upper), n)
+    return out
+
+
 def q5(e: Engine, rep: Report):
-    # _check_ready: the index that bounds the dropped prefix advances only
-    # together with a dispatch
-    ctx = e.method_ctx(QUEUE, '_check_ready')
-    g = e.build(ctx, raises=lambda b, n, r: set())
-    where = ctx.func.qname
-    rep.functions.add(where)
-    ws = [n for n in _queued_writes(e, g) if n.kind == 'stmt']
-    loops = [n for n in g.of_kind('iter') if isinstance(n.ast, ast.For) and
-             'self.queued' in ast.unparse(n.ast.iter)]
-    if not ws or not loops:
-        rep.error('anchor vanished: scan loop / slice in _check_ready')
-        return
-    slice_vars = set()
-    for w in ws:
-        for x in ast.walk(w.ast.value):
-            if isinstance(x, ast.Slice) and isinstance(x.lower, ast.Name):
-                slice_vars.add(path_of(x.lower, w.frame))
-    lp = loops[0]
-    adv = [n for n in g.of_kind('stmt') if isinstance(n.ast, ast.Assign)
-           and path_of(n.ast.targets[0], n.frame) in slice_vars and
-           any(sc.kind == 'loop' and sc.ast is lp.ast for sc in n.scopes)]
-    rep.evaluations += 1
-    if not slice_vars or not adv:
-        rep.bad('Q5', where, 'dropped prefix is bounded by the dispatch '
-                'index', 'the timetable is truncated by something other '
-                'than the index of the last dispatched entry',
-                loc=ws[0].loc())
-    before = dataflow.must_events_before(
-        g, lambda n: ['spawn'] if _spawns_dequeue(e, n) else [],
-        kill=lambda n: ['spawn'] if n is lp else [])
-    for n in adv:
+    """Entries leave the timetable exactly when a _dequeue is spawned for
+    them.  Two shapes are recognised: (A) spawn inside the scan loop over
+    self.queued, the prefix index advancing only after the spawn; (B) the
+    removed entries are first taken into a local list (prefix slice / whole
+    list) and each element of that list is dispatched exactly once."""
+    for meth in ('_check_ready', 'flush'):
+        ctx = e.method_ctx(QUEUE, meth)
+        g = e.build(ctx, raises=lambda b, n, r: set())
+        where = ctx.func.qname
+        rep.functions.add(where)
+        ws = [n for n in _queued_writes(e, g) if n.kind == 'stmt']
+        spawns = [n for n in g.nodes if _spawns_dequeue(e, n)]
         rep.evaluations += 1
-        rep.check('spawn' in (before.get(n.id) or ()), 'Q5', where,
-                  'prefix index advances only after a dispatch',
-                  'an entry can be counted into the dropped prefix without '
-                  'a _dequeue having been spawned for it: it leaves the '
-                  'timetable and is never attempted', loc=n.loc(),
-                  reason='_dequeue spawned in the same iteration')
-    counts = common.per_iteration_counts(
-        g, lp, lambda n: 1 if _spawns_dequeue(e, n) else 0)
-    rep.check(counts <= frozenset([0, 1]) and 1 in counts, 'Q5', where,
-              'at most one dispatch per entry',
-              'an entry is dispatched %s times in one scan' % sorted(counts),
-              reason='one _dequeue per due entry', loc=lp.loc())
-    # flush: a _dequeue for every entry before the list is replaced
-    ctx = e.method_ctx(QUEUE, 'flush')
-    g = e.build(ctx, raises=lambda b, n, r: set())
-    where = ctx.func.qname
-    ws = [n for n in _queued_writes(e, g)]
-    loops = [n for n in g.of_kind('iter') if isinstance(n.ast, ast.For) and
-             'self.queued' in ast.unparse(n.ast.iter)]
-    rep.evaluations += 1
-    if not loops:
-        rep.bad('Q5', where, 'flush dispatches every entry',
-                'flush() no longer iterates over the timetable',
-                loc=ctx.func.loc())
-        return
-    lp = loops[0]
-    counts = common.per_iteration_counts(
-        g, lp, lambda n: 1 if _spawns_dequeue(e, n) else 0)
-    rep.check(counts == frozenset([1]), 'Q5', where,
-              'flush dispatches every entry exactly once',
-              'flush() drops entries from the timetable after %s '
-              'dispatches per entry' % sorted(counts), loc=lp.loc(),
-              reason='one _dequeue per entry')
-    for w in ws:
-        rep.evaluations += 1
-        ok = not common_reach_without_done(g, w, lp)
-        rep.check(ok, 'Q5', where, 'timetable cleared only after the '
-                  'dispatch loop', 'flush() clears the timetable before '
-                  'every entry was dispatched', loc=w.loc(),
-                  reason='loop completed before the clear')
+        if not ws or not spawns:
+            rep.bad('Q5', where, 'entries removed from the timetable are '
+                    'dispatched', '%s no longer rewrites the timetable / '
+                    'dispatches entries' % meth, loc=ctx.func.loc())
+            continue
+        snaps = _snapshot_vars(g)
+        direct = [n for n in g.of_kind('iter') if isinstance(n.ast, ast.For)
+                  and 'self.queued' in ast.unparse(n.ast.iter) and any(
+                      sc.kind == 'loop' and sc.ast is n.ast
+                      for s in spawns for sc in s.scopes)]
+        local = [n for n in g.of_kind('iter') if isinstance(n.ast, ast.For)
+                 and path_of(n.ast.iter, n.frame) in snaps and any(
+                     sc.kind == 'loop' and sc.ast is n.ast
+                     for s in spawns for sc in s.scopes)]
+        if local:
+            lp = local[0]
+            upper, defn = snaps[path_of(lp.ast.iter, lp.frame)]
+            counts = common.per_iteration_counts(
+                g, lp, lambda n: 1 if _spawns_dequeue(e, n) else 0)
+            rep.check(counts == frozenset([1]), 'Q5', where,
+                      'every removed entry is dispatched exactly once',
+                      'per removed entry %s _dequeue spawns' % sorted(counts),
+                      loc=lp.loc(), reason='one _dequeue per element of the '
+                      'removed list')
+            # the kept part is the complement of the removed part
+            for w in ws:
+                v = w.ast.value
+                if upper is None:
+                    ok = isinstance(v, ast.List) and not v.elts
+                    what = 'the whole list was taken: the timetable is ' \
+                           'emptied'
+                else:
+                    ok = isinstance(v, ast.Subscript) and \
+                        isinstance(v.slice, ast.Slice) and \
+                        v.slice.upper is None and v.slice.lower is not None \
+                        and ast.unparse(v.slice.lower) == upper and \
+                        path_of(v.value, w.frame) == 'self.queued'
+                    what = 'kept part self.queued[%s:] complements the ' \
+                           'removed prefix [:%s]' % (upper, upper)
+                rep.evaluations += 1
+                rep.check(ok, 'Q5', where, 'kept entries are the complement '
+                          'of the dispatched ones',
+                          'the timetable is rewritten as `%s` although the '
+                          'dispatched entries are self.queued[:%s]: '
+                          'entries are dropped without dispatch or '
+                          'dispatched and kept' % (ast.unparse(v), upper),
+                          loc=w.loc(), reason=what)
+            # snapshot taken before the rewrite, with no yield in between
+            before = dataflow.must_events_before(
+                g, lambda n: ['snap'] if n is defn else [])
+            for w in ws:
+                rep.check('snap' in (before.get(w.id) or ()) or w is defn,
+                          'Q5', where, 'removed entries are captured '
+                          'before the rewrite', 'the timetable is rewritten '
+                          'before the entries to dispatch were captured',
+                          loc=w.loc(), reason='snapshot dominates the write')
+        elif direct:
+            lp = direct[0]
+            slice_vars = set()
+            for w in ws:
+                for x in ast.walk(w.ast.value):
+                    if isinstance(x, ast.Slice) and \
+                            isinstance(x.lower, ast.Name):
+                        slice_vars.add(path_of(x.lower, w.frame))
+            adv = [n for n in g.of_kind('stmt')
+                   if isinstance(n.ast, ast.Assign) and
+                   path_of(n.ast.targets[0], n.frame) in slice_vars and
+                   any(sc.kind == 'loop' and sc.ast is lp.ast
+                       for sc in n.scopes)]
+            before = dataflow.must_events_before(
+                g, lambda n: ['spawn'] if _spawns_dequeue(e, n) else [],
+                kill=lambda n: ['spawn'] if n is lp else [])
+            if meth == '_check_ready':
+                rep.check(bool(adv) and all(
+                    'spawn' in (before.get(n.id) or ()) for n in adv), 'Q5',
+                    where, 'prefix index advances only after a dispatch',
+                    'an entry can be counted into the dropped prefix '
+                    'without a _dequeue having been spawned for it',
+                    loc=lp.loc(), reason='_dequeue spawned in the same '
+                    'iteration')
+            counts = common.per_iteration_counts(
+                g, lp, lambda n: 1 if _spawns_dequeue(e, n) else 0)
+            want = frozenset([1]) if meth == 'flush' else None
+            rep.check(counts == want if want else (
+                counts <= frozenset([0, 1]) and 1 in counts), 'Q5', where,
+                'one dispatch per entry', '%s dispatches per entry'
+                % sorted(counts), loc=lp.loc(), reason='one _dequeue per '
+                'entry')
+            for w in ws:
+                rep.evaluations += 1
+                rep.check(not common_reach_without_done(g, w, lp), 'Q5',
+                          where, 'timetable rewritten only after the '
+                          'dispatch loop', 'the timetable is rewritten '
+                          'before every entry was dispatched', loc=w.loc(),
+                          reason='loop completed before the rewrite')
+        else:
+            rep.bad('Q5', where, 'dispatch loop over the removed entries',
+                    'no loop dispatches the entries that %s removes from '
+                    'the timetable' % meth, loc=ctx.func.loc())
+        # Q7: the shared list is never iterated across a yield point
+        for lp in [n for n in g.of_kind('iter') if isinstance(n.ast, ast.For)
+                   and 'self.queued' in ast.unparse(n.ast.iter)]:
+            ycalls = [n for n in g.calls() if any(
+                sc.kind == 'loop' and sc.ast is lp.ast for sc in n.scopes)
+                and e.call_name(n) not in YIELD_FREE]
+            rep.evaluations += 1
+            rep.check(not ycalls, 'Q7', where,
+                      'no yield point inside the scan over self.queued',
+                      'the loop over the shared timetable calls `%s`, which '
+                      'can switch greenlets (pool.spawn blocks on a bounded '
+                      'pool): _add_queued can insert meanwhile, the list '
+                      'shifts under the iteration and the final rewrite '
+                      'drops entries that were never dispatched' % (
+                          ycalls[0].text(40) if ycalls else ''),
+                      loc=lp.loc(), reason='scan loop is yield-free')
 
 
 def common_reach_without_done(g, dst, lp) -> bool:
@@ -406,15 +498,32 @@ def q6(e: Engine, rep: Report):
         return
     now = '%s#%d' % (ctx.func.params[1], g.entry.frame.id)
     lp = loops[0]
-    for n in spawns:
+    # sites that decide that an entry is dispatched: the spawn itself when
+    # it sits in the scan loop, else the advance of the prefix index
+    deciders = [n for n in spawns if any(
+        sc.kind == 'loop' and sc.ast is lp.ast for sc in n.scopes)]
+    if not deciders:
+        snaps = _snapshot_vars(g)
+        uppers = {u for u, _ in snaps.values() if u}
+        deciders = [n for n in g.of_kind('stmt')
+                    if isinstance(n.ast, ast.Assign) and
+                    isinstance(n.ast.targets[0], ast.Name) and
+                    n.ast.targets[0].id in uppers and any(
+                        sc.kind == 'loop' and sc.ast is lp.ast
+                        for sc in n.scopes)]
+    if not deciders:
+        rep.bad('Q6', where, 'dispatch only when due',
+                'cannot find where _check_ready decides which entries are '
+                'due', loc=ctx.func.loc())
+    for n in deciders:
         rep.evaluations += 1
         st = fx.at(n) or frozenset()
         # normalised form of `now >= timestamp` is `timestamp <= now`
         due = [k for p, k in st if p and k.endswith(' <= ' + now)]
         rep.check(bool(due), 'Q6', where, 'dispatch only when due',
-                  'a _dequeue is spawned without `now >= timestamp` '
-                  'holding for that entry: the message is attempted before '
-                  'the time the backoff policy chose', loc=n.loc(),
+                  'an entry is selected for dispatch without `now >= '
+                  'timestamp` holding for it: the message is attempted '
+                  'before the time the backoff policy chose', loc=n.loc(),
                   reason='dominated by timestamp <= now')
     # the scan stops at the first entry that is not due
     tests = [t for t in g.of_kind('test') if any(
